@@ -7,6 +7,7 @@ mod codec;
 mod progen;
 mod verify;
 mod exec;
+mod text;
 
 use std::io::{BufRead, Write};
 
@@ -23,7 +24,8 @@ fn run_line(line: &str) -> String {
     match toks[0] {
         "dec" | "enc" | "idx" | "vec" | "bld" => codec::run(&toks),
         "verify" => verify::run(&toks),
-        "dis" => { let p = rng::unhex(toks[1]).unwrap(); catch(move || rbpf::disassembler::to_insn_vec(&p).iter().enumerate().map(|(i, x)| format!("{}: {}", i, x.desc)).collect::<Vec<_>>().join("\n")) }
+        "disdbg" => { let p = rng::unhex(toks[1]).unwrap(); catch(move || rbpf::disassembler::to_insn_vec(&p).iter().enumerate().map(|(i, x)| format!("{}: {}", i, x.desc)).collect::<Vec<_>>().join("\n")) }
+        "asm" | "dis" | "rt" => text::run(&toks),
         "exec" => exec::run(&toks),
         _ => "bad-op".into(),
     }
@@ -49,6 +51,10 @@ fn main() {
                 "exec-random" => exec::gen_random(&mut w, thorough, seed),
                 "exec-calls" => exec::gen_calls(&mut w, thorough, seed),
                 "exec-memprobe" => exec::gen_memprobe(&mut w, thorough, seed),
+                "asm" => text::gen_asm(&mut w, thorough, seed),
+                "asmfuzz" => text::gen_asmfuzz(&mut w, thorough, seed),
+                "dis" => text::gen_dis(&mut w, thorough, seed),
+                "rt" => text::gen_rt(&mut w, thorough, seed),
                 "exec-long" => exec::gen_long(&mut w, thorough, seed),
                 _ => { eprintln!("unknown suite {suite}"); std::process::exit(2); }
             }
